@@ -1646,6 +1646,9 @@ func evalBin(op token.Token, a, b SV) SV {
 			return symBool(a.N >= b.N)
 		}
 	}
+	if op == token.ADD && a.K == "str" && b.K == "str" && a.Known && b.Known {
+		return symStr(a.S + b.S)
+	}
 	if op == token.REM && b.K == "int" && b.Known && (b.N == 1 || b.N == -1) {
 		return symInt(0)
 	}
